@@ -21,7 +21,7 @@ static Rotation frameRot(const mj::Value& f) {
     return Rotation(angleOf(f), ZAxis);
 }
 static Vec3 vec(const mj::Value& v) { return Vec3(v[0].dbl(), v[1].dbl(), v[2].dbl()); }
-static string num(double x) { char b[40]; snprintf(b, sizeof b, "%.17g", x); return b; }
+static string num(double x) { if (x != x) return "NaN"; if (x > 1e308) return "Infinity"; if (x < -1e308) return "-Infinity"; char b[40]; snprintf(b, sizeof b, "%.17g", x); return b; }
 static string jv(const Vec3& v) { return "[" + num(v[0]) + "," + num(v[1]) + "," + num(v[2]) + "]"; }
 static string jm(const Mat33& m) { return "[" + jv(Vec3(m(0,0), m(0,1), m(0,2))) + "," + jv(Vec3(m(1,0), m(1,1), m(1,2))) + "," + jv(Vec3(m(2,0), m(2,1), m(2,2))) + "]"; }
 
